@@ -355,10 +355,16 @@ type c17Seen struct {
 	h1Only  bool // the https server offers http/1.1 only (no h2): the Host HEADER is observed instead of :authority
 	// round 4: the HTTP request the fake DoH server received first
 	httpMajor int // r.ProtoMajor (1, 2, 3)
+	// round 8: EVERY request / TLS ClientHello the fake server sees, and an optional non-200 first answer
+	hosts     []string // r.Host of every HTTP request, in order
+	snis      []string // server name of every ClientHello, in order
+	redirCode int      // when != 0: the FIRST HTTP request is answered with this status ...
+	redirLoc  string   // ... and this Location header (when not empty)
 }
 
 func (s *c17Seen) noteSNI(n string) {
 	s.mu.Lock()
+	s.snis = append(s.snis, n)
 	if !s.sniSet || s.sni == "" {
 		s.sni, s.sniSet = n, true
 	}
@@ -447,10 +453,37 @@ func c17ServeUDP(pc net.PacketConn, seen *c17Seen) {
 	}
 }
 
+// c17CountListener counts the accepted connections (seen.conns)
+type c17CountListener struct {
+	net.Listener
+	seen *c17Seen
+}
+
+func (l c17CountListener) Accept() (net.Conn, error) {
+	c, err := l.Listener.Accept()
+	if err == nil {
+		l.seen.noteConn()
+	}
+	return c, err
+}
+
 type c17DoH struct{ seen *c17Seen }
 
 func (h c17DoH) ServeHTTP(w http.ResponseWriter, r *http.Request) {
+	h.seen.mu.Lock()
+	first := len(h.seen.hosts) == 0
+	h.seen.hosts = append(h.seen.hosts, r.Host)
+	code, loc := h.seen.redirCode, h.seen.redirLoc
+	h.seen.mu.Unlock()
 	h.seen.noteRequest(r)
+	if code != 0 && first {
+		h.seen.noteQuery()
+		if loc != "" {
+			w.Header().Set("Location", loc)
+		}
+		w.WriteHeader(code)
+		return
+	}
 	var q []byte
 	if r.Method == http.MethodGet {
 		q, _ = base64.RawURLEncoding.DecodeString(r.URL.Query().Get("dns"))
@@ -564,6 +597,7 @@ func c17StartServer(sc, laddr string, cert *tls.Certificate, seen *c17Seen, clie
 		if err != nil {
 			return "", nil, err
 		}
+		l = c17CountListener{l, seen}
 		hs := &http.Server{Handler: c17DoH{seen}, ReadTimeout: 5 * time.Second, ErrorLog: nullLogger}
 		if seen.oneShot {
 			hs.SetKeepAlivesEnabled(false)
